@@ -70,11 +70,12 @@ Lag(kind) == CASE kind = "stale" -> MaxAge + 1
                [] kind = "lag" -> 2
                [] OTHER -> 0
 ContentOk(kind) == kind \in {"ok", "stale", "edge", "lag"}   \* state, relay, errors, capacity all fine
-\* _is_timestamp_outdated.  The property wants `age >= max_data_age` to be outdated; the code tests
-\* `now - timestamp > max_data_age`, so it ACCEPTS an age of exactly MaxAge (known deviation, see
-\* Dev_EdgeAgeAccepted).  acc = TRUE is the code's current behaviour, acc = FALSE the repaired one; the
-\* specification allows both so that repairing the comparison is not a disagreement.
-Accs(kind) == IF Lag(kind) = MaxAge THEN BOOLEAN ELSE {FALSE}
+\* _is_timestamp_outdated: `now - timestamp >= max_data_age` is outdated (the same age the data timers
+\* use).  Until /repo d120239 the code tested `>` and ACCEPTED an age of exactly MaxAge; that behaviour is
+\* kept as the named deviation Dev_EdgeAgeAccepted: the model itself (mc / gen / sim) only has the repaired
+\* behaviour acc = FALSE; when a recorded trace is validated the deviating step acc = TRUE is admitted too,
+\* so that a regression is recognised as THIS deviation (and the clauses then fail with its name).
+Accs(kind) == IF Lag(kind) = MaxAge /\ Mode = "trace" THEN BOOLEAN ELSE {FALSE}
 Reliable(kind, acc) == Lag(kind) < MaxAge \/ (Lag(kind) = MaxAge /\ acc)
 Correct(kind, acc) == Reliable(kind, acc) /\ ContentOk(kind)
 \* the property: the message is younger than the maximum data age and shows a healthy component
@@ -240,21 +241,20 @@ SimEmit == (Mode = "sim" /\ Len(h) = MaxDepth) => Emit(h)
 Proves(s) == s.q /\ now - s.arr < MaxAge
 Healthy(b) == Proves(bat[b]) /\ Proves(inv[b])
 
-\* Known deviation: a message whose timestamp is EXACTLY MaxAge old at arrival is not "younger than
-\* the maximum data age", yet _is_timestamp_outdated (`>`) accepts it; the timer branch (`<`) would not.
+\* Named deviation (repaired in /repo d120239, kept so that a regression is reported under its name): a
+\* message whose timestamp is EXACTLY MaxAge old at arrival is not "younger than the maximum data age", yet
+\* it is held as correct (`>` instead of `>=` in _is_timestamp_outdated).
 Dev_EdgeAgeAccepted(s) == s.ok /\ s.ts # None /\ s.arr - s.ts = MaxAge /\ now - s.arr < MaxAge
-StreamFine(s) == Proves(s) \/ Dev_EdgeAgeAccepted(s)
+\* the model itself never takes the deviating step
+DeviationFree == \A b \in Bats : ~Dev_EdgeAgeAccepted(bat[b]) /\ ~Dev_EdgeAgeAccepted(inv[b])
 
 ChanStatus(b) == IF sent[b] = <<>> THEN "NW" ELSE sent[b][Len(sent[b])]
 
 WorkingImpliesHealthyAndFresh ==
-    Quiescent => \A b \in Bats : st[b] \in {"WK", "UN"} => (StreamFine(bat[b]) /\ StreamFine(inv[b]))
-\* strict form, without the deviation (used to enumerate where the deviation fires)
-WorkingImpliesHealthyAndFreshStrict ==
     Quiescent => \A b \in Bats : st[b] \in {"WK", "UN"} => Healthy(b)
 \* as soon as a condition fails / data stopped for MaxAge, NOT_WORKING is what the channel says
 NotWorkingWhenDisqualified ==
-    Quiescent => \A b \in Bats : ~(StreamFine(bat[b]) /\ StreamFine(inv[b])) => ChanStatus(b) = "NW"
+    Quiescent => \A b \in Bats : ~Healthy(b) => ChanStatus(b) = "NW"
 ChannelIsStatus == \A b \in Bats : ChanStatus(b) = st[b]
 NotifyOnlyOnChange ==
     [][\A b \in Bats : sent'[b] # sent[b] =>
@@ -277,7 +277,7 @@ UncertainOnlyAsFallback ==
     \A S \in SUBSET Bats : \A b \in GetWorking(S) :
        /\ st[b] # "NW"
        /\ st[b] = "UN" => Working \cap S = {}
-       /\ Quiescent => (StreamFine(bat[b]) /\ StreamFine(inv[b]))
+       /\ Quiescent => Healthy(b)
 
 TypeOK ==
     /\ now >= 0
